@@ -1,8 +1,10 @@
 """C33 Schema changes keep catalog, storage and indexes consistent — structural clauses.
 
 Decides: (a) every change of a stored table's schema through Table::schema_mut is followed on
-every Ok path by the catalog re-registration (Catalog::create_table after drop_table) — the
+every Ok path by the catalog re-registration (Catalog::replace_table, or create_table for a new name) — the
 executors read the catalog copy, so an unsynchronised change leaves two different schemas;
+(a') the re-registration of a table that stays is in place: outside DROP TABLE / RENAME TABLE no executor function calls
+Catalog::drop_table and then Catalog::create_table (drop_table also drops the table's triggers);
 (b) DROP TABLE passes through the purge of the table's indexes in catalog and storage; DROP INDEX
 removes the entry from catalog and storage; (c) CREATE INDEX registers the index in the catalog
 and in storage on every Ok path, and a failure of the storage step does not leave the catalog
@@ -47,10 +49,10 @@ def run(ctx):
     scope = [f for f in prog.fns.values() if f.unit == 'vibesql_executor']
 
     # ---------------------------------------------------------------- (a) dual-schema coherence
-    ctx.rule('C33.a', 'after Table::schema_mut() in the executor, Catalog::create_table (re-registration of the changed schema) is '
+    ctx.rule('C33.a', 'after Table::schema_mut() in the executor, Catalog::replace_table / create_table (re-registration of the changed schema) is '
              'called on every path to an Ok return; helpers pass the obligation to their callers')
     fo = Follow(prog, cg, lambda t, fn: callee_name(t) == M.T + 'schema_mut',
-                lambda t, fn: callee_name(t) in (CAT_T + 'create_table', M.D + 'create_table'), scope)
+                lambda t, fn: callee_name(t) in (CAT_T + 'create_table', CAT_T + 'replace_table', M.D + 'create_table'), scope)
     n = 0
     for f in scope:
         for i, t in f.calls():
@@ -62,6 +64,30 @@ def run(ctx):
         f = prog.by_nice[ofn][0]
         ctx.finding(f'a/{ofn}/schema_mut', f'{ofn} changes the stored table schema but does not re-register it in the catalog on every '
                     f'successful path ({M.chain_str(chain)})', f.loc, {'chain': chain})
+
+    # ---------------------------------------------------------------- (a') in-place re-registration
+    ctx.rule("C33.a'", 'no executor function other than the DROP TABLE / RENAME TABLE executors calls Catalog::drop_table and, on a path behind it, Catalog::create_table '
+             '(drop_table removes the triggers of the table)')
+    REREG_OK = re.compile(r'(drop_table::DropTableExecutor::execute|alter::table_options::execute_rename_table)$')
+    nre = 0
+    for f in scope:
+        drops = [i for i, t in f.calls() if callee_name(t) == CAT_T + 'drop_table']
+        creates = [i for i, t in f.calls() if callee_name(t) in (CAT_T + 'create_table', M.D + 'create_table')]
+        if drops:
+            nre += 1
+        if not drops or not creates or REREG_OK.search(f.nice):
+            continue
+        g = cfg(f)
+        from .shared import _forward_reach
+        for d_ in drops:
+            if any(c_ in _forward_reach(g, d_) for c_ in creates):
+                short = f.nice.rsplit('::', 1)[1]
+                ctx.finding(f"a'/{short}", f'{f.nice} re-registers a table by Catalog::drop_table + create_table: drop_table also drops every trigger of the table, so the '
+                            'statement silently removes them (ALTER TABLE t ADD CONSTRAINT .. on a table with triggers)', f'{f.file}:{f.blocks[d_]["t"]["l"]}')
+                break
+    anchor = sum(1 for f in prog.fns.values() if any(callee_name(t) == CAT_T + 'drop_table' for _i, t in f.calls()))
+    ctx.instance("a'/callers", {'rule': "C33.a'", 'executor_functions_calling_catalog_drop_table': nre, 'callers_anywhere': anchor})
+    ctx.floor("C33.a' callers of Catalog::drop_table anywhere (the callee name still resolves)", anchor, 1)
 
     # ---------------------------------------------------------------- (b) purge on DROP
     ctx.rule('C33.b', 'DropTableExecutor::execute passes Catalog::drop_table_indexes and Database::drop_table on every Ok path that '
